@@ -193,3 +193,21 @@ pub open spec fn d6_class(s: Seq<u8>, t: UriElement) -> bool { !is_query(t) && !
         assert(decode_from(sb, 0, false) == Some(acc));
     }
 //@ end
+
+/// every normal form is well-escaped and is its own normal form (idempotence)
+pub proof fn lemma_normal_form_fixed_point(s: Seq<u8>, query: bool)
+    requires normal_form(s, query) is Some
+    ensures
+        well_escaped(normal_form(s, query)->Some_0),
+        normal_form(normal_form(s, query)->Some_0, query) == normal_form(s, query), //# C09 C10 name=normalisation_is_idempotent
+        normal_form(normal_form(s, query)->Some_0, false) == normal_form(s, query),
+{
+    let d = decode_from(s, 0, query)->Some_0;
+    lemma_decode_encode(d, query);
+    lemma_decode_encode(d, false);
+}
+/// insensitivity to spelling: equal decoded bytes give equal normal forms
+pub proof fn lemma_normal_form_spelling(a: Seq<u8>, b: Seq<u8>, query: bool)
+    requires decode_from(a, 0, query) == decode_from(b, 0, query)
+    ensures normal_form(a, query) == normal_form(b, query) //# C09 C10 name=insensitive_to_percent_encoding_choices
+{}
